@@ -43,6 +43,44 @@ MUTANTS = [
      "    def depends_on_result_in_sandbox(self) -> bool:\n        return True\n\n"
      "    def _exit_identifier_printer(self) -> ProcOutputFile:\n        return ProcOutputFile.STDOUT",
      '_ResultReporterForPreserveAndPrintSandboxDir.report : ensures['),
+    ('c06-conjunction-stops-at-first-true', 'C06', 'exactly_lib/impls/types/matcher/impls/combinator_matchers.py',
+     "            if not result.value:\n                return tb.build_result(False)",
+     "            if result.value:\n                return tb.build_result(False)",
+     'Conjunction.matches_w_trace : ensures[value-is-all-of-the-operands]'),
+    ('c06-operand-applied-twice', 'C06', 'exactly_lib/impls/types/matcher/impls/combinator_matchers.py',
+     "            result = operand.matches_w_trace(model)\n            tb.append_child(result.trace)\n"
+     "            if not result.value:",
+     "            operand.matches_w_trace(model)\n            result = operand.matches_w_trace(model)\n"
+     "            tb.append_child(result.trace)\n            if not result.value:",
+     'Conjunction.matches_w_trace : operands are applied in the order given, none twice, none skipped'),
+    ('c06-and-builds-disjunction', 'C06', 'exactly_lib/impls/types/matcher/standard_expression_grammar.py',
+     "        return combinator_sdvs.Conjunction(operands, model_freezer)",
+     "        return combinator_sdvs.Disjunction(operands, model_freezer)",
+     'integer-matcher: && builds a Conjunction of the operands in the order given'),
+    ('c06-grammar-init-reverses-levels', 'C06', 'exactly_lib/impls/types/expression/grammar.py',
+     "            for infix_ops_of_precedence in infix_operators_in_order_of_increasing_precedence\n        ]",
+     "            for infix_ops_of_precedence in reversed(infix_operators_in_order_of_increasing_precedence)\n        ]",
+     'Grammar.__init__ : ensures[one dict per precedence level, in the order given]'),
+    ('c06-sdv-resolve-drops-operand', 'C06', 'exactly_lib/impls/types/matcher/impls/combinator_sdvs.py',
+     "class Conjunction(InfixOpImplBase[MODEL]):\n    def resolve(self, symbols: SymbolTable) -> MatcherDdv[MODEL]:\n"
+     "        return combinator_matchers.ConjunctionDdv(\n            [operand.resolve(symbols)\n"
+     "             for operand in self._operands],",
+     "class Conjunction(InfixOpImplBase[MODEL]):\n    def resolve(self, symbols: SymbolTable) -> MatcherDdv[MODEL]:\n"
+     "        return combinator_matchers.ConjunctionDdv(\n            [operand.resolve(symbols)\n"
+     "             for operand in self._operands[1:]],",
+     'combinator_sdvs:Conjunction.resolve : ensures[operands: same length, same order, each the image of its source]'),
+    ('c06-reserved-word-accepted', 'C06', 'exactly_lib/impls/types/expression/parser.py',
+     "        elif primitive_name in self.grammar.custom_reserved_words:",
+     "        elif False and primitive_name in self.grammar.custom_reserved_words:",
+     '_Parser.parse_primitive : ensures[unknown primitive or reserved word is never accepted]'),
+    ('c06-sequence-skips-first-transformer', 'C06', 'exactly_lib/impls/types/string_transformer/impl/sequence.py',
+     "        for transformer in self._non_identity_transformer_functions:\n            model = transformer(model)",
+     "        for transformer in self._non_identity_transformer_functions[1:]:\n            model = transformer(model)",
+     'SequenceStringTransformer.transform : ensures[left to right'),
+    ('c06-operand-after-not-on-current-line', 'C06', 'exactly_lib/impls/types/expression/parser.py',
+     "                expression = self.parse_mandatory_primitive(must_be_on_current_line=False)",
+     "                expression = self.parse_mandatory_primitive(must_be_on_current_line=True)",
+     'bounded[integer-matcher _Parser.parse] unclassified: '),
     # ---- C01 / C03
     ('c01-continue-after-hard-error', 'C01', 'exactly_lib/execution/impl/phase_step_execution.py',
      "            if failure_info is not None:\n                return Failure(",
@@ -102,4 +140,16 @@ MUTANTS = [
     ('c02-status-instruction-case', 'C02', 'exactly_lib/impls/instructions/configuration/test_case_status.py',
      "        argument = status_element_arg.upper()", "        argument = status_element_arg",
      'status instruction: documented spellings'),
+    # ---- C06: each half of fix 35f7247 reverted
+    ('c06-revert-fix-35f7247-first-operand-mode', 'C06', 'exactly_lib/impls/types/expression/parser.py',
+     "        expression = self.parse_w_maybe_infix_ops(new_line_ignore,\n",
+     "        expression = self.parse_w_maybe_infix_ops(new_line_ignore is None,\n",
+     'bounded[integer-matcher _Parser.parse] C06-2: '),
+    ('c06-revert-fix-35f7247-operand-mode-inside-parentheses', 'C06', 'exactly_lib/impls/types/expression/parser.py',
+     "            next_operand = self.parse_w_maybe_infix_ops(\n"
+     "                _IS_INSIDE_PARENTHESES if is_inside_parens else _NEXT_EXPR_ON_ANY_LINE,\n"
+     "                infix_ops_levels)",
+     "            next_operand = self.parse_w_maybe_infix_ops(_NEXT_EXPR_ON_ANY_LINE,\n"
+     "                                                        infix_ops_levels)",
+     'bounded[integer-matcher _Parser.parse] C06-1: '),
 ]
